@@ -1,0 +1,70 @@
+//go:build verif
+
+package fsm
+
+// Behaviours of (*FSM).Do for the signature-proposal (invitation) machine (written by /verif/tools/gen_do_contracts.py).
+//
+//@ import spf "github.com/lidofinance/dc4bc/fsm/state_machines/signature_proposal_fsm"
+//@ import internal "github.com/lidofinance/dc4bc/fsm/state_machines/internal"
+//@ import requests "github.com/lidofinance/dc4bc/fsm/types/requests"
+//
+//@ spec func sigM(f *FSM) *spf.SignatureProposalFSM = machOf(f, "signature_proposal_fsm")
+//@ spec func sigCancelled(s State) bool = s == spf.StateValidationCanceledByParticipant || s == spf.StateValidationCanceledByTimeout
+//@ spec func sigStage(s State) bool = s == spf.StateAwaitParticipantsConfirmations || sigCancelled(s) || s == spf.StateSignatureProposalCollected
+//@ spec func invSigTable(f *FSM) bool = machineTable(f, "signature_proposal_fsm", sigM(f)) && sigM(f).FSM == f && sigM(f).payload != nil
+//@ spec func invSigState(f *FSM) bool = f.currentState == StateGlobalIdle || sigStage(f.currentState)
+//@ spec func invSigWf(f *FSM) bool = sigStage(f.currentState) ==> wfSigQ(sigM(f).payload) && sigQ(sigM(f).payload) != nil
+//@ spec func invSig(f *FSM) bool = invSigTable(f) && invSigState(f) && invSigWf(f)
+//@ spec func sigRejectNoop(f *FSM) bool = f.currentState == old(f.currentState) && sigViewsSame(sigM(f))
+
+//@ func (*FSM).Do behavior sig.init
+//@   safety C18
+//@   fvtargets SignatureProposalFSM).actionInitSignatureProposal SignatureProposalFSM).actionValidateSignatureProposal
+//@   requires f != nil && invSig(f) && event == spf.EventInitProposal
+//@   ensures[C05.reject.sig,C18.reject.sig] err != nil ==> sigRejectNoop(f)
+//@   ensures[C05.resp] err == nil ==> resp != nil && resp.State == f.currentState
+//@   ensures[C05.resp.reject] resp != nil ==> resp.State == f.currentState
+//@   ensures[C05.inv.table] invSigTable(f)
+//@   ensures[C05.inv.state] invSigState(f)
+//@   ensures[C05.inv.wf] invSigWf(f)
+//@   ensures[C05.absorbing] sigCancelled(old(f.currentState)) ==> sigCancelled(f.currentState)
+//@   ensures[C05.open] err == nil ==> old(f.currentState) == StateGlobalIdle && (f.currentState == spf.StateAwaitParticipantsConfirmations || sigCancelled(f.currentState))
+
+//@ func (*FSM).Do behavior sig.confirm
+//@   safety C18
+//@   fvtargets SignatureProposalFSM).actionProposalResponseByParticipant SignatureProposalFSM).actionValidateSignatureProposal
+//@   requires f != nil && invSig(f) && event == spf.EventConfirmSignatureProposal
+//@   ensures[C05.reject.sig,C18.reject.sig] err != nil ==> sigRejectNoop(f)
+//@   ensures[C05.resp] err == nil ==> resp != nil && resp.State == f.currentState
+//@   ensures[C05.resp.reject] resp != nil ==> resp.State == f.currentState
+//@   ensures[C05.inv.table] invSigTable(f)
+//@   ensures[C05.inv.state] invSigState(f)
+//@   ensures[C05.inv.wf] invSigWf(f)
+//@   ensures[C05.absorbing] sigCancelled(old(f.currentState)) ==> sigCancelled(f.currentState)
+//@   ensures[C05.once.confirm,C10.once.confirm] err == nil ==> old(f.currentState) == spf.StateAwaitParticipantsConfirmations && isPartReq(args) && old(partReq(args).ParticipantId in sigQ(sigM(f).payload))
+//@   ensures[C05.next.confirm] err == nil ==> f.currentState == spf.StateAwaitParticipantsConfirmations || f.currentState == spf.StateSignatureProposalCollected || sigCancelled(f.currentState)
+//@   ensures[C05.unanimous.invite] err == nil && f.currentState == spf.StateSignatureProposalCollected ==> old(sigQ(sigM(f).payload)[partReq(args).ParticipantId].Status) == internal.SigConfirmationAwaitConfirmation
+
+//@ func (*FSM).Do behavior sig.decline
+//@   safety C18
+//@   fvtargets SignatureProposalFSM).actionProposalResponseByParticipant SignatureProposalFSM).actionValidateSignatureProposal
+//@   requires f != nil && invSig(f) && event == spf.EventDeclineProposal
+//@   ensures[C05.reject.sig,C18.reject.sig] err != nil ==> sigRejectNoop(f)
+//@   ensures[C05.resp] err == nil ==> resp != nil && resp.State == f.currentState
+//@   ensures[C05.resp.reject] resp != nil ==> resp.State == f.currentState
+//@   ensures[C05.inv.table] invSigTable(f)
+//@   ensures[C05.inv.state] invSigState(f)
+//@   ensures[C05.inv.wf] invSigWf(f)
+//@   ensures[C05.absorbing] sigCancelled(old(f.currentState)) ==> sigCancelled(f.currentState)
+//@   ensures[C05.once.decline,C10.once.decline] err == nil ==> old(f.currentState) == spf.StateAwaitParticipantsConfirmations && isPartReq(args) && old(partReq(args).ParticipantId in sigQ(sigM(f).payload))
+//@   ensures[C05.next.decline] err == nil ==> f.currentState == spf.StateAwaitParticipantsConfirmations || f.currentState == spf.StateSignatureProposalCollected || sigCancelled(f.currentState)
+//@   ensures[C05.causes.decline] err == nil ==> f.currentState != spf.StateSignatureProposalCollected
+
+//@ func (*FSM).Do behavior sig.other
+//@   safety C18
+//@   fvtargets SignatureProposalFSM).
+//@   requires f != nil && invSig(f) && event != spf.EventInitProposal && event != spf.EventConfirmSignatureProposal && event != spf.EventDeclineProposal
+//@   ensures[C05.reject.sig,C18.reject.sig] err != nil && sigRejectNoop(f) && resp == nil
+//@   ensures[C05.inv.table] invSigTable(f)
+//@   ensures[C05.inv.state] invSigState(f)
+//@   ensures[C05.inv.wf] invSigWf(f)
